@@ -290,11 +290,22 @@ def r5_interning(rep, ctx):
     # (as asked or as resolved); a constant component makes the entry answer requests that did not
     # resolve to this object
     n_stores = 0
+
+    class _KeyOnly:
+        """`cache.setdefault(key, value)` / `cache.update({key: value})` seen as a store under `key`"""
+
+        def __init__(self, key):
+            self.slice = key
+            self.value = None
+
     for st in own_statements(fn.node):
-        if not isinstance(st, ast.Assign):
+        pseudo = []
+        if isinstance(st, ast.Expr) and isinstance(st.value, ast.Call) and isinstance(st.value.func, ast.Attribute) and st.value.func.attr == "setdefault" and is_cache(st.value.func.value) and st.value.args:
+            pseudo = [_KeyOnly(st.value.args[0])]
+        if not isinstance(st, ast.Assign) and not pseudo:
             continue
-        for t in st.targets:
-            if isinstance(t, ast.Subscript) and is_cache(t.value):
+        for t in (pseudo or st.targets):
+            if pseudo or (isinstance(t, ast.Subscript) and is_cache(t.value)):
                 n_stores += 1
                 kt = res.term(t.slice)
                 consts = []
@@ -519,6 +530,11 @@ def r7_copies(rep, ctx):
 
 def r8_pickle(rep, ctx):
     m = ctx.model
+    # the pickled state lists the composing entries in their own order (unit, category and equality depend on it)
+    rd = m.method("Quantity", "__reduce__")
+    for c_ in own_nodes(rd.node):
+        if isinstance(c_, ast.Call) and isinstance(c_.func, ast.Name) and c_.func.id in ("sorted", "set", "frozenset") and any(isinstance(y, ast.Attribute) and y.attr == MAP for y in ast.walk(c_)):
+            rep.bad("C07.R8", "Quantity.__reduce__:ordered-state", "Quantity.__reduce__ builds its state with `%s(...)` over the composing map: a derived quantity whose entries are not already in that order is unpickled as a different (unequal) quantity" % c_.func.id, node=c_, fn=rd)
     red = m.own_method("Quantity", "__reduce__")
     if red is None:
         raise AnalysisError("Quantity.__reduce__ not found")
